@@ -246,6 +246,17 @@ func (k Keeper) CalculatePrice(
 		), nil
 	}
 
+	// Without any fresh validator price there is nothing to aggregate, whatever the quorum is
+	// (a quorum that truncates to zero power would otherwise reach the median of an empty list).
+	if totalPower.IsZero() {
+		return types.NewPrice(
+			types.PRICE_STATUS_NOT_READY,
+			feed.SignalID,
+			0,
+			ctx.BlockTime().Unix(),
+		), nil
+	}
+
 	// If the total power is less than price quorum percentage of the total bonded token
 	// or less than half of total have available price status, it will not be calculated.
 	if totalPower.LT(powerQuorum) || availablePower.MulRaw(2).LT(totalPower) {
